@@ -90,3 +90,9 @@ def pick(x, lo, hi):
         else:
             lo = mid + 1
     return lo
+
+
+def native(fn, *args, **kw):
+    """Run a concrete computation untraced (native speed); arguments must be concrete."""
+    with NoTracing():
+        return fn(*args, **kw)
